@@ -12,7 +12,7 @@ NOTE = ("Trusted: Lean 4.33.0 kernel (axioms of every theorem ⊆ propext, Class
         "correspondence stages; harness generators and the Lean-compiled oracle. ")
 
 T = {
- "C01": ("other", "Theorems (12): the generated contribution test is exact for all clip types / fill rules / integers; about the hand model of the sweep's bookkeeping (Model.Wind, Model.Vertex): inserted edges get exact winding counts, the count update at an intersection is exact, every action of intersectEdges' decision table keeps 'hot iff contributing', and in an abstract sweep every reachable active-edge list satisfies both (sweep_invariant); vertex rings are flagged with exactly their local minima / maxima. Tie: translator regenerated each run + correspondence stages wind-corr, gen-corr, models-corr. The geometry of the sweep (AEL order, horizontals, joins, ring assembly, self-intersection repair) is NOT proved: the end-to-end statement is explored on the real API with a Lean-executed exact winding-number oracle.",
+ "C01": ("other", "Theorems (12): the generated contribution test is exact for all clip types / fill rules / integers; about the hand model of the sweep's bookkeeping (Model.Wind, Model.Vertex): inserted edges get exact winding counts, the count update at an intersection is exact, every action of intersectEdges' decision table keeps 'hot iff contributing', and in an abstract sweep every reachable active-edge list satisfies both (sweep_invariant); vertex rings are flagged with exactly their local minima / maxima; about Model.AelOrder (isValidAelOrder, insertLeftEdge): two edges leaving one vertex in different directions are ordered as they lie geometrically above the scanline (exact, within 2^29), different x at the scanline orders by x, the newcomer is inserted after the residents that accept it and before the first that refuses it, and an x-ordered list stays x-ordered. Tie: translator regenerated each run + correspondence stages wind-corr, gen-corr, models-corr. The rest of the sweep's geometry (re-ordering at intersections, horizontals, joins, ring assembly, self-intersection repair) is NOT proved: the end-to-end statement is explored on the real API with a Lean-executed exact winding-number oracle.",
          "End-to-end region equality is exploration only; theorems are about models."),
  "C02": ("other", "Theorems (8): ReverseSolution negates winding and area; about Model.Out: the removal loop of cleanCollinear stops only when no vertex is a duplicate or 180° spike (clean_post), buildPath emits no equal consecutive points and returns the whole cleaned ring. fixSelfIntersects/doSplitOp not modelled. End-to-end (winding ∈ {0,1}, vertex conditions, re-union) explored with the Lean oracle.",
          "End-to-end claim is exploration only."),
